@@ -164,3 +164,39 @@ func (c *Ctx) WhoMayCallDeep(rule, what string, targets []*types.Func, allowed m
 	}
 	c.Stats["vta_callers:"+rule] += n
 }
+
+// valueReferenced: some live function mentions f other than as the callee of a call (function value,
+// method value) — its callers are then not all known from call sites.
+func (p *Prog) valueReferenced(f *types.Func) bool {
+	if f == nil {
+		return true
+	}
+	hit := false
+	for _, fn := range p.live() {
+		info := fn.Info()
+		callee := map[*ast.Ident]bool{}
+		ast.Inspect(fn.Decl.Body, func(n ast.Node) bool {
+			if call, ok := n.(*ast.CallExpr); ok {
+				switch t := ast.Unparen(call.Fun).(type) {
+				case *ast.Ident:
+					callee[t] = true
+				case *ast.SelectorExpr:
+					callee[t.Sel] = true
+				}
+			}
+			return true
+		})
+		ast.Inspect(fn.Decl.Body, func(n ast.Node) bool {
+			if id, ok := n.(*ast.Ident); ok && !callee[id] {
+				if g, ok := info.Uses[id].(*types.Func); ok && g.Origin() == f.Origin() {
+					hit = true
+				}
+			}
+			return !hit
+		})
+		if hit {
+			return true
+		}
+	}
+	return false
+}
